@@ -31,6 +31,7 @@ pub open spec fn in_adj<K, N, E>(e: Edge<K, N, E>, adj: spec_fn(Node<K, N, E>) -
 
 // `r` is an edge tree grown from `root`: existing accepted edges, one per target, each
 // starting at the root or at an earlier target
+#[verifier::opaque]
 pub open spec fn tree<K, N, E>(r: Seq<Edge<K, N, E>>, root: Node<K, N, E>, acc: spec_fn(Edge<K, N, E>) -> bool, adj: spec_fn(Node<K, N, E>) -> Seq<Edge<K, N, E>>) -> bool {
     &&& forall|i: int| 0 <= i < r.len() ==> universe::<K, N, E>().contains((#[trigger] r[i]).0) && in_adj(r[i], adj) && acc(r[i])
     &&& forall|i: int, j: int| 0 <= i < j < r.len() ==> (#[trigger] r[i]).1.k() != (#[trigger] r[j]).1.k()
@@ -44,6 +45,7 @@ pub open spec fn src_ok<K, N, E>(n: Node<K, N, E>, r: Seq<Edge<K, N, E>>, root: 
 }
 // (vis1, r1) extends (vis0, r0): r0 is a prefix, the new visited keys are exactly the new
 // targets, none of which was visited before
+#[verifier::opaque]
 pub open spec fn ext<K, N, E>(vis0: Set<K>, r0: Seq<Edge<K, N, E>>, vis1: Set<K>, r1: Seq<Edge<K, N, E>>) -> bool {
     &&& r0.len() <= r1.len()
     &&& r1.take(r0.len() as int) == r0
@@ -51,17 +53,23 @@ pub open spec fn ext<K, N, E>(vis0: Set<K>, r0: Seq<Edge<K, N, E>>, vis1: Set<K>
     &&& forall|i: int| r0.len() <= i < r1.len() ==> !vis0.contains((#[trigger] r1[i]).1.k())
 }
 
+pub proof fn lemma_tree_empty<K, N, E>(root: Node<K, N, E>, acc: spec_fn(Edge<K, N, E>) -> bool, adj: spec_fn(Node<K, N, E>) -> Seq<Edge<K, N, E>>)
+    ensures tree(Seq::<Edge<K, N, E>>::empty(), root, acc, adj), vis_sup(Set::<K>::empty(), Seq::<Edge<K, N, E>>::empty())
+{
+    reveal(tree);
+}
+
 pub proof fn lemma_ext_refl<K, N, E>(vis: Set<K>, r: Seq<Edge<K, N, E>>)
     ensures ext(vis, r, vis, r)
 {
-    assert(r.take(r.len() as int) =~= r);
+    reveal(tree); reveal(ext);    assert(r.take(r.len() as int) =~= r);
 }
 
 pub proof fn lemma_ext_push<K, N, E>(vis0: Set<K>, r0: Seq<Edge<K, N, E>>, vis: Set<K>, r: Seq<Edge<K, N, E>>, e: Edge<K, N, E>)
     requires ext(vis0, r0, vis, r), !vis.contains(e.1.k())
     ensures ext(vis0, r0, vis.insert(e.1.k()), r.push(e))
 {
-    let r2 = r.push(e);
+    reveal(tree); reveal(ext);    let r2 = r.push(e);
     let vis2 = vis.insert(e.1.k());
     assert(r2.take(r0.len() as int) =~= r.take(r0.len() as int));
     assert forall|k: K| vis2.contains(k) <==> (vis0.contains(k) || exists|i: int| r0.len() <= i < r2.len() && (#[trigger] r2[i]).1.k() == k) by {
@@ -87,7 +95,7 @@ pub proof fn lemma_ext_trans<K, N, E>(vis0: Set<K>, r0: Seq<Edge<K, N, E>>, vis1
     requires ext(vis0, r0, vis1, r1), ext(vis1, r1, vis2, r2)
     ensures ext(vis0, r0, vis2, r2)
 {
-    assert(r2.take(r0.len() as int) =~= r2.take(r1.len() as int).take(r0.len() as int));
+    reveal(tree); reveal(ext);    assert(r2.take(r0.len() as int) =~= r2.take(r1.len() as int).take(r0.len() as int));
     assert forall|k: K| vis2.contains(k) <==> (vis0.contains(k) || exists|i: int| r0.len() <= i < r2.len() && (#[trigger] r2[i]).1.k() == k) by {
         if vis2.contains(k) {
             if vis1.contains(k) {
@@ -115,7 +123,7 @@ pub proof fn lemma_tree_push<K, N, E>(r: Seq<Edge<K, N, E>>, root: Node<K, N, E>
         forall|n: Node<K, N, E>| src_ok(n, r, root) ==> src_ok(n, r.push(e), root),
         src_ok(e.1, r.push(e), root),
 {
-    let r2 = r.push(e);
+    reveal(tree); reveal(ext);    let r2 = r.push(e);
     assert forall|i: int| 0 <= i < r2.len() implies universe::<K, N, E>().contains((#[trigger] r2[i]).0) && in_adj(r2[i], adj) && acc(r2[i]) by {
         if i < r.len() { assert(r2[i] == r[i]); }
     }
@@ -293,4 +301,18 @@ pub proof fn lemma_path_reach<K, N, E>(root: Node<K, N, E>, acc: spec_fn(Edge<K,
     ensures reach(root, p.last().1.k(), acc, adj)
 {
     reveal(reach);
+}
+
+pub proof fn lemma_unvisited_mono<K, N, E>(a: Set<K>, b: Set<K>)
+    requires forall|k: K| a.contains(k) ==> b.contains(k)
+    ensures unvisited::<K, N, E>(b) <= unvisited::<K, N, E>(a)
+{
+    let uk = ukeys::<K, N, E>();
+    assert(uk.difference(b).subset_of(uk.difference(a)));
+    vstd::set_lib::lemma_len_subset(uk.difference(b), uk.difference(a));
+}
+
+// nodes that became visited between vis0 and vis1 are closed (DFS recursion postcondition)
+pub open spec fn new_closed<K, N, E>(vis0: Set<K>, vis1: Set<K>, acc: spec_fn(Edge<K, N, E>) -> bool, adj: spec_fn(Node<K, N, E>) -> Seq<Edge<K, N, E>>) -> bool {
+    forall|u: Node<K, N, E>| #[trigger] universe::<K, N, E>().contains(u) && vis1.contains(u.k()) && !vis0.contains(u.k()) ==> closed_at(u, vis1, acc, adj)
 }
